@@ -1362,6 +1362,11 @@ def tuple_cmp(e, args, fr, m):
     return res
 
 
+# Unicode White_Space (what char::is_whitespace accepts)
+_WHITE_SPACE = [(0x9, 0xd), (0x20, 0x20), (0x85, 0x85), (0xa0, 0xa0), (0x1680, 0x1680), (0x2000, 0x200a), (0x2028, 0x2029), (0x202f, 0x202f),
+                (0x205f, 0x205f), (0x3000, 0x3000)]
+
+
 @contract(r'^<impl str>::(trim|trim_start|trim_end)$')
 def str_trim(e, args, fr, m):
     s_ = e.load(args[0])
@@ -1377,7 +1382,22 @@ def str_trim(e, args, fr, m):
             segs[-1] = ('lit', segs[-1][1].rstrip())
         # a symbolic number never starts or ends with white space
         return simplify_seg(SegStr(segs))
-    raise Unsupported('trim of a symbolic string')
+    # generic symbolic string: s = lead ++ r ++ trail, lead / trail consist of White_Space characters only and r neither starts nor
+    # ends with one. The fresh names are derived from the argument term, so re-executions of the same path reuse them.
+    z = s_.z()
+    tag = '%s_%d' % (which, z.get_id())
+    lead = z3.String('trimlead_' + tag) if which in ('trim', 'trim_start') else z3.StringVal('')
+    trail = z3.String('trimtrail_' + tag) if which in ('trim', 'trim_end') else z3.StringVal('')
+    r = z3.String('trimmed_' + tag)
+    ws = z3.Union(*[z3.Range(chr(a), chr(b)) for a, b in _WHITE_SPACE])
+    e.assume(z == z3.Concat(lead, r, trail) if which == 'trim' else (z == z3.Concat(lead, r) if which == 'trim_start' else z == z3.Concat(r, trail)))
+    if which in ('trim', 'trim_start'):
+        e.assume(z3.InRe(lead, z3.Star(ws)))
+        e.assume(z3.Or(z3.Length(r) == 0, z3.Not(z3.InRe(z3.SubString(r, 0, 1), ws))))
+    if which in ('trim', 'trim_end'):
+        e.assume(z3.InRe(trail, z3.Star(ws)))
+        e.assume(z3.Or(z3.Length(r) == 0, z3.Not(z3.InRe(z3.SubString(r, z3.Length(r) - 1, 1), ws))))
+    return Str(r)
 
 
 @contract(r'^<impl (u8|u16|u32|u64|u128|usize|i32|i64)>::saturating_add$')
